@@ -3988,14 +3988,22 @@ void Interpreter::register_destructor_call(
         type_manager_->resolve_typedef(struct_type_name);
     const StructDefinition *struct_def = find_struct_definition(resolved_type);
 
-    if (struct_def) {
+    // Walks the value members of `def` (an object named `owner_name`).  A
+    // member whose type has a destructor is registered (recursively, through
+    // register_destructor_call).  A member whose type has no destructor of
+    // its own is not registered itself, but may still contain members that
+    // have one ("w.pr.second"), so it is walked in turn.  Generic types keep
+    // being left alone, as before.
+    std::function<void(const std::string &, const StructDefinition *)>
+        register_members = [&](const std::string &owner_name,
+                               const StructDefinition *def) {
         // 構造体の各メンバーをチェック
-        for (const auto &member : struct_def->members) {
+        for (const auto &member : def->members) {
             // 値メンバー（ポインタでも参照でもない）で構造体型の場合
             if (member.type == TYPE_STRUCT && !member.is_pointer &&
                 !member.is_reference && !member.type_alias.empty()) {
                 // メンバーの完全な変数名
-                std::string member_var_name = var_name + "." + member.name;
+                std::string member_var_name = owner_name + "." + member.name;
 
                 // メンバーの型名を解決
                 std::string member_type =
@@ -4016,9 +4024,19 @@ void Interpreter::register_destructor_call(
                         debug_msg(DebugMsgId::GENERIC_DEBUG,
                                   "  Registered nested value member for ");
                     }
+                } else if (member_type.find('<') == std::string::npos) {
+                    const StructDefinition *member_def =
+                        find_struct_definition(member_type);
+                    if (member_def && !member_def->is_generic) {
+                        register_members(member_var_name, member_def);
+                    }
                 }
             }
         }
+    };
+
+    if (struct_def) {
+        register_members(var_name, struct_def);
     }
 
     // What is registered here is a newly constructed object.  Blocks have no
